@@ -632,21 +632,10 @@ impl PlainDate {
     #[inline]
     pub fn to_plain_year_month(&self) -> TemporalResult<PlainYearMonth> {
         // TODO: Migrate to `PartialYearMonth`
-        let era = self
-            .era()
-            .map(|e| {
-                TinyAsciiStr::<19>::try_from_utf8(e.as_bytes())
-                    .map_err(|e| TemporalError::general(format!("{e}")))
-            })
-            .transpose()?;
-        let partial = PartialDate::new()
-            .with_year(Some(self.year()))
-            .with_era(era)
-            .with_era_year(self.era_year())
-            .with_month(Some(self.month()))
-            .with_month_code(Some(self.month_code()));
-        self.calendar()
-            .year_month_from_partial(&partial, ArithmeticOverflow::Constrain)
+        self.calendar().year_month_from_partial(
+            &PartialDate::default().with_fallback_date(self)?,
+            ArithmeticOverflow::Constrain,
+        )
     }
 
     /// Converts the current `Date` into a `PlainMonthDay`
